@@ -545,5 +545,39 @@ theorem rollbackBlockAt_sim {c : Ctx} {ga sa ga' : RbAcc} {bh : BlkId} {txs : Li
       obtain ⟨r, _, q2⟩ := M_bind_ok hf
       cases q2
       exact ha) rfl hg
+theorem tip_heights (h : Nat) : (List.range (h + 1 - h)).map (fun k => h - k) = [h] := by
+  rw [Nat.add_sub_cancel_left]; rfl
+
+theorem rollback_sim {c : Ctx} {g1 : Store} {bh : BlkId} {txs : List TxId}
+    (hdeb : ∀ id i d cr, AMap.get g.debits ⟨id, bm, i⟩ = some d → AMap.get g.credits d.2 = some cr →
+      addrs.contains cr.sh = false)
+    (hSub : Sub addrs g s) (hN : NewEq bm g s) (hsy : g.syncedTo = bm.height)
+    (hrec : AMap.get g.blocks bm.height = some (bh, txs)) (hbh : bm.hash = bh)
+    (hg : rollback c g bm.height = .ok g1) :
+    ∃ s1, rollback c s bm.height = .ok s1 ∧ RbInv addrs bm g s g1 s1 := by
+  unfold rollback at hg ⊢
+  rw [hSub.syncedTo]
+  rw [hsy, tip_heights] at hg ⊢
+  dsimp only at hg ⊢
+  obtain ⟨ga, h1, h2⟩ := M_bind_ok hg
+  rw [List.foldlM_cons] at h1
+  obtain ⟨ga', h1a, h1b⟩ := M_bind_ok h1
+  cases h1b
+  obtain ⟨sa, hs1, ⟨hb, hh, hI⟩, hhe⟩ := rollbackBlockAt_sim (c := c) hdeb (ga := { s := g, bals := g.balance })
+    (sa := { s := s, bals := s.balance }) hrec hbh ⟨hSub.balance, rfl, rbInv_init hSub hN⟩ h1a
+  cases h2
+  rw [List.foldlM_cons, hs1]
+  simp only [M_ok_bind, List.foldlM_nil]
+  refine ⟨_, rfl, ?_⟩
+  rw [hh, hhe]
+  have hE := hI.eraseBlock
+  have hP := hE.minedEq
+    (minedEq_foldl (purgeSpenders c.own) ga.cb _ (fun s op _ => minedEq_purgeSpenders c.own s op))
+    (minedEq_foldl (purgeSpenders c.own) sa.cb _ (fun s op _ => minedEq_purgeSpenders c.own s op))
+  refine ⟨hP.unspent, hP.game, ?_, hP.sync, hP.syncedTo, hP.status, hP.adr, hP.cred, hP.debS, hP.deb, hP.debO,
+    hP.txS, hP.tx, hP.blk⟩
+  show mergeBalances sa.bals _ = mergeBalances ga.bals _
+  rw [hb]
+  exact congrArg _ hP.balance
 
 end MW.Lemmas.RemoveSim
